@@ -747,13 +747,14 @@ func runC10(c *Ctx, r *Rec) {
 	}
 	r.floor("D1-leaf-scannable", 8)
 
+	checkReceiverWrites(c, r, "D3-receiver-writes-persist", fr.n)
 	checkConverterPairs(c, r, fr, st)
 	checkFormatterPurity(c, r, fr)
 	checkGuardedRecursion(c, r, info, fr.n, fr.ms, fr.depthF, fr.maxF, "D4-guarded-recursion")
 	for _, name := range sortedKeys(fr.ms) {
 		checkLoops(c, r, "D5-loop-progress", fr.ms[name], nil)
 	}
-	r.floor("D5-loop-progress", 5)
+	r.floor("D5-loop-progress", 1)
 }
 
 // ---------------------------------------------------------------- D2 converter pairs
